@@ -17,7 +17,7 @@ from vf import refmodel, specs
 from vf import strategies as S
 from vf.common import import_emsarray
 from vf.props._util import open_case
-from vf.runner import Sub
+from vf.runner import Enum, Sub
 
 PROPERTY = "C14"
 RULE = (
@@ -323,6 +323,60 @@ def mesh_strategy(tier):
                           geom_kwargs={"jitter": False, "unit_exps": (3, 3, 4, 10, 20, 20)})
 
 
+def huge_grid_cases(tier):
+    # more than 2**16 cells of one shape in one dataset (a 257 x 256 grid of rectangles)
+    yield {"ny": 257, "nx": 256}
+    if tier == "thorough":
+        yield {"ny": 300, "nx": 300}
+
+
+def check_huge_grid(case, ctx):
+    """Vectorised version of the per-cell checks for a grid far too large to loop over: every
+    cell owns exactly two triangles, they lie in the cell's box and add up to its area."""
+    import_emsarray()
+    import xarray
+    from emsarray.operations.triangulate import triangulate_dataset
+    ny, nx = case["ny"], case["nx"]
+    lat = numpy.arange(ny, dtype=numpy.float64) * 0.25 - 30.0
+    lon = numpy.arange(nx, dtype=numpy.float64) * 0.5 + 100.0
+    ds = xarray.Dataset(coords={
+        "lat": (["lat"], lat, {"units": "degrees_north"}), "lon": (["lon"], lon, {"units": "degrees_east"})},
+        attrs={"Conventions": "CF-1.8"})
+    ctx.at("C14.triangulate")
+    with warnings.catch_warnings():
+        warnings.simplefilter("ignore")
+        vertices, triangles, cell_indices = (numpy.asarray(a) for a in triangulate_dataset(ds))
+    n = ny * nx
+    ctx.check(len(triangles) == 2 * n and len(cell_indices) == 2 * n, "C14.triangle_count",
+              lambda: f"{len(triangles)} triangles / {len(cell_indices)} cell indexes for {n} four-sided cells")
+    ctx.check(bool(numpy.all((cell_indices >= 0) & (cell_indices < n))), "C14.cell_index_valid",
+              "cell indexes outside the grid")
+    counts = numpy.bincount(cell_indices.astype(numpy.int64), minlength=n)
+    bad = numpy.flatnonzero(counts != 2)
+    ctx.check(bad.size == 0, "C14.triangle_count",
+              lambda: f"{bad.size} cells do not own exactly two triangles (first: cell {int(bad[0])} owns {int(counts[bad[0]])})")
+    pts = vertices[triangles]                                   # (T, 3, 2)
+    j, i = numpy.divmod(cell_indices.astype(numpy.int64), nx)
+    x_lo, x_hi = lon[i] - 0.25, lon[i] + 0.25
+    y_lo, y_hi = lat[j] - 0.125, lat[j] + 0.125
+    inside = ((pts[:, :, 0] >= x_lo[:, None] - 1e-9) & (pts[:, :, 0] <= x_hi[:, None] + 1e-9)
+              & (pts[:, :, 1] >= y_lo[:, None] - 1e-9) & (pts[:, :, 1] <= y_hi[:, None] + 1e-9))
+    out = numpy.flatnonzero(~inside.all(axis=1))
+    ctx.check(out.size == 0, "C14.inside_cell",
+              lambda: f"{out.size} triangles have a vertex outside the cell they name (first: triangle "
+              f"{int(out[0])} {pts[out[0]].tolist()} for cell {int(cell_indices[out[0]])})")
+    a, b, c = pts[:, 0], pts[:, 1], pts[:, 2]
+    areas = 0.5 * numpy.abs((b[:, 0] - a[:, 0]) * (c[:, 1] - a[:, 1]) - (b[:, 1] - a[:, 1]) * (c[:, 0] - a[:, 0]))
+    per_cell = numpy.zeros(n)
+    numpy.add.at(per_cell, cell_indices.astype(numpy.int64), areas)
+    wrong = numpy.flatnonzero(numpy.abs(per_cell - 0.125) > 1e-9)
+    ctx.check(wrong.size == 0, "C14.areas_sum_to_cell",
+              lambda: f"{wrong.size} cells whose triangles do not add up to the cell area (first: cell "
+              f"{int(wrong[0])} has {per_cell[wrong[0]]})")
+    ctx.label(f"cells:{n}")
+    ctx.nontrivial(n > 2 ** 16)
+
+
 SUBS = [
     Sub("datasets", strategy, check_spec, quick=150, thorough=800),
     Sub("polyomino_meshes", mesh_strategy, check_spec, quick=100, thorough=600),
@@ -331,4 +385,5 @@ SUBS = [
     Sub("signed_zero_corners", lambda tier: signed_zero_spec(), check_spec, quick=30, thorough=200),
     Sub("sparse_large_grids", lambda tier: sparse_grid_spec(), check_sparse, quick=25, thorough=200),
 ]
+ENUMS = [Enum("huge_uniform_grid", huge_grid_cases, check_huge_grid, exhaustive_in=("quick", "thorough"))]
 MATCHERS = {}
